@@ -12,7 +12,7 @@ import (
 
 func init() {
 	register(&Def{ID: "C20", Engine: "E1", Run: runC20, Configs: []string{"noasm", "inplacetranspose"},
-		Rule: "the whole driver is built and run three times (default tags, -tags noasm, -tags inplacetranspose); in every build, for engines {StdEng, Float32Engine, Float64Engine} attached to every operand and destination: arithmetic (Add/Sub/Mul/Div), fused multiply-add with tensor and scalar multiplier, Inner/MatVecMul/MatMul/Outer, in modes {safe, unsafe, reuse, incr} and operand layouts {contiguous, lazily transposed, sliced, step-sliced}; transposes (every permutation, T+Transpose, SafeT, tensor.Transpose) of 6 element widths; index arithmetic (divmod for every a in [-40,200], b in [1,17]; Itol/Ltoi round trips; TransposeIndex/UntransposeIndex; BitMap over every index <= 200). " +
+		Rule: "the whole driver is built and run three times (default tags, -tags noasm, -tags inplacetranspose); in every build, for engines {StdEng, Float32Engine, Float64Engine} attached to every operand and destination: arithmetic (Add/Sub/Mul/Div), fused multiply-add with tensor and scalar multiplier, Inner/MatVecMul/MatMul/Outer, in modes {safe, unsafe, reuse, incr, unsafe+reuse, unsafe+incr} and operand layouts {contiguous, lazily transposed, sliced, step-sliced}; operands of an element type the specialised engine is not made for (float32/float64/int32/int64 in every pairing: refused wherever StdEng refuses, equal wherever both accept); transposes (every permutation, T+Transpose, SafeT, tensor.Transpose) of 6 element widths; index arithmetic (divmod for every a in [-40,200], b in [1,17]; Itol/Ltoi round trips; TransposeIndex/UntransposeIndex; BitMap over every index <= 200). " +
 			"oracle: the configuration-independent reference model (so all configurations agree with each other by transitivity) plus a direct comparison of each specialised engine with StdEng on the same inputs (values, returned-tensor identity class, effect on operands/destination). one case = one tuple under one configuration; non-trivial = >= 2 elements",
 		Assume: []string{"the reference model is the same in every build; bit-exact agreement is required for +,-,*,/ and integer index arithmetic, tolerance only for products with fractional inputs"}})
 }
